@@ -36,6 +36,12 @@ func realtimeMode(args []string) int {
 			_, _ = c.Touch("s", 2)
 			return []string{"s"}, nil
 		}},
+		{"touch-lengthens-expiry", func(c *rosmar.Collection) ([]string, []string) {
+			// the timer first fires at the old deadline, finds nothing due, and must re-arm itself for the new one
+			_ = c.SetRaw("l", 2, nil, []byte("1"))
+			_, _ = c.Touch("l", 4)
+			return []string{"l"}, nil
+		}},
 		{"preserve-expiry-keeps-deadline", func(c *rosmar.Collection) ([]string, []string) {
 			_ = c.SetRaw("p", 2, nil, []byte("1"))
 			_ = c.SetRaw("p", 0, &sgbucket.UpsertOptions{PreserveExpiry: true}, []byte("2"))
@@ -93,7 +99,7 @@ func realtimeMode(args []string) int {
 				}
 				time.Sleep(50 * time.Millisecond)
 			}
-			deadline := start.Add(8 * time.Second)
+			deadline := start.Add(9 * time.Second)
 			for {
 				done := true
 				for _, k := range expire {
@@ -109,7 +115,7 @@ func realtimeMode(args []string) int {
 					break
 				}
 				if time.Now().After(deadline) {
-					report("violation %s: not tombstoned with a deletion event within 8 s of a 2 s expiry: %v", sc.name, expire)
+					report("violation %s: not tombstoned with a deletion event within 9 s of a 2 s (4 s for the lengthened one) expiry: %v", sc.name, expire)
 					mu.Lock()
 					bad++
 					mu.Unlock()
